@@ -155,7 +155,7 @@ REG.contract('C07', O, 'OptionStore.initialize_from_subproject_call',
                     5: Loop(invariant=['implies(q in __seen and q not in self.augments, q in self.values and self.values[q] is options[q])',
                                        f'implies(not (q in __seen and q not in self.augments), {KEEP})'])},
              modifies=['self.values', 'self.pending_subproject_options', 'self.pending_options', 'self.subprojects'],
-             opaque=OPQ, opaque_attrs=OPA, opaque_fns=OFN, floor=20,
+             opaque=OPQ, opaque_attrs=OPA, opaque_fns=OFN, native_classes=['OptionKey'], floor=20,
              note='eight-step precedence for a subproject, for dictionaries of any size: the value handed to the store for key q is the one of the highest-priority source that names it')
 
 # ---- top-level project: prefix first, then default_options < machine file < command line (for dictionaries of any size)
